@@ -148,6 +148,7 @@ func vpRank(b []byte) uint64 {
 func vpJoin()  {}
 func vpYield() {}
 func vpSettle() {}
+func vpEager()  {}
 func vpSameBacking(a, b []byte) bool {
 	if cap(a) == 0 || cap(b) == 0 {
 		return false
